@@ -182,6 +182,10 @@ def is_parent_of_arg(r, x):
         ch = transformer_chain(a.args[0], r.is_arg)
         if ch is None or not ch <= {'os.path.normpath', 'os.path.abspath'}:
             return False
+        if not ch & {'os.path.normpath', 'os.path.abspath'}:
+            # dirname('link/') is the link itself, not its parent: the argument must
+            # lose its trailing separators first (the move sink does so as well)
+            return False
         ok = True
     return ok
 
